@@ -1,6 +1,7 @@
 package main
 
 import (
+	"go/token"
 	"unicode/utf8"
 
 	"golang.org/x/tools/go/ssa"
@@ -39,5 +40,37 @@ func init() {
 			return s
 		}
 		panic(unsupported("cty.NormalizeString on %T", a[0]))
+	}
+	// Numbers enter cty as *big.Float; arbitrary-precision arithmetic on a symbolic
+	// mantissa (decimal printing divides in a loop) does not terminate usefully, so a
+	// symbolic integer is case-split into its feasible values at this boundary.
+	for _, name := range []string{"NumberIntVal", "NumberUIntVal"} {
+		intrinsics["github.com/zclconf/go-cty/cty."+name] = func(fr *frame, fn *ssa.Function, a []value) value {
+			sv, ok := a[0].(symv)
+			if !ok {
+				panic(declined{})
+			}
+			c := fr.i.p.Concretize(sv.t)
+			return callSSA(fr.i, fr.caller, token.NoPos, fn, []value{mkInt(sv.k, c)}, nil)
+		}
+	}
+	// the same boundary one level down: schemahcl.Int64Attr builds the big.Float itself
+	for _, name := range []string{"SetInt64", "SetUint64", "SetFloat64"} {
+		intrinsics["(*math/big.Float)."+name] = func(fr *frame, fn *ssa.Function, a []value) value {
+			sv, ok := a[1].(symv)
+			if !ok {
+				panic(declined{})
+			}
+			c := fr.i.p.Concretize(sv.t)
+			return callSSA(fr.i, fr.caller, token.NoPos, fn, []value{a[0], mkInt(sv.k, c)}, nil)
+		}
+	}
+	intrinsics["math/big.NewInt"] = func(fr *frame, fn *ssa.Function, a []value) value {
+		sv, ok := a[0].(symv)
+		if !ok {
+			panic(declined{})
+		}
+		c := fr.i.p.Concretize(sv.t)
+		return callSSA(fr.i, fr.caller, token.NoPos, fn, []value{mkInt(sv.k, c)}, nil)
 	}
 }
